@@ -378,6 +378,46 @@ def run(chk):
     lib.correspond(chk, "gaussian_value_in_verified_enclosure_det_form_eq_residual_form", IMPORTS, CASE_T, "check_case",
                    cases, pf, lambda i: desc[i], shard=5 if chk.tier == "quick" else 25,
                    jobs=6, timeout=1700)
+    # ---- call history on the SAME array objects: estimate, overwrite Y and/or Z (or X) in place, estimate again.  The second
+    # value must be the closed form of the data the arrays hold NOW (estimators are functions of their arguments' contents)
+    n_hist = 14 if chk.tier == "quick" else 400
+    done = 0
+    while done < n_hist:
+        kx, ky, kz = int(rng.integers(1, 3)), int(rng.integers(1, 3)), int(rng.integers(1, 4))
+        dim = kx + ky + kz
+        N = int(rng.integers(dim + 4, 41))
+        samples = []
+        for _ in range(2):
+            ints, exps = gen_sample(rng, kx, ky, kz, N, 12, zcols=range(kx + ky, dim))
+            samples.append((ints, exps, to_float(ints, exps)))
+        F1, F2 = samples[0][2], samples[1][2]
+        X, Y, Z = [np.array(a, copy=True) for a in split(F1, kx, ky, kz)]
+        X2, Y2, Z2 = split(F2, kx, ky, kz)
+        which = str(rng.choice(["Y", "Z", "YZ", "X"]))
+        v_first = float(g(X, Y, Z))
+        if "Y" in which:
+            Y[:] = Y2
+        if "Z" in which:
+            Z[:] = Z2
+        if which == "X":
+            X[:] = X2
+        F_now = np.hstack([X, Y, Z])
+        if not corr_cond(F_now) <= COND_MAX or not corr_cond(F1) <= COND_MAX:
+            continue
+        cols = [[Fraction(float(F_now[n_, c])) for n_ in range(N)] for c in range(dim)]
+        ex = exact_cmi(cols, list(range(kx)), list(range(kx, kx + ky)), list(range(kx + ky, dim)))
+        if ex is None:
+            continue
+        done += 1
+        v_second = float(g(X, Y, Z))
+        chk.case(key=("history", F1.tobytes(), F2.tobytes(), which), nontrivial=True)
+        chk.count("history.overwrite_" + which)
+        if not math.isfinite(v_second) or abs(v_second - ex[0]) > ftol(ex[0]):
+            chk.violation("counterexample", f"after estimating once and overwriting {which} in place, the same array objects give {v_second!r} "
+                          f"but the closed form of their current contents is {ex[0]!r} (first call returned {v_first!r})",
+                          {"stream": "call history, arrays overwritten in place", "overwritten": which, "first_sample": F1.tolist(),
+                           "arrays_now": F_now.tolist(), "kx": kx, "ky": ky, "kz": kz, "first_value": v_first, "second_value": v_second,
+                           "closed_form_now": ex[0]})
     # ---- malformed stream: degenerate samples are outside the property; only "returns a float, no exception"
     for k in range(12 if chk.tier == "quick" else 200):
         kx, ky, kz = int(rng.integers(1, 3)), int(rng.integers(1, 3)), int(rng.integers(0, 3))
